@@ -511,6 +511,11 @@ SCANNERS = {
                   [""], '<var v="3"/><text text="%s"/>'),
     "loop-attrs": (["1", "-1", "0.5", "$v", "{{", "}}", "(", ")", "x", " ", "1e9", "nan", "inf", "$\u00e9", "${\u00df}"],
                    [""], '<var v="2"/><loop count="%s"><rect wh="1"/></loop>'),
+    # class lists: tokens that expand to several classes, duplicates of classes already present, empty expansions
+    "class-tokens": (["a", "b", "$v", "$u", "${v}", "$e", "{{1}}", " ", "  ", "a a", "d-red", "$w", "\t"],
+                     ["", "a "], '<var v="a b c" u="b b" e="" w="d-red d-thick"/><rect wh="1" class="%s"/>'),
+    "class-tokens-g": (["a", "$v", "$u", "$e", " ", "a a", "$w", "d-red"],
+                       ["", "a "], '<var v="a b c" u="b b" e="" w="d-red d-thick"/><g class="%s"><rect wh="1"/></g><loop count="2"><g class="%s $v"/></loop>'),
     # attributes that reach the expression tokenizer without the variable pre-pass
     "if-test": (["1", "0", "$v", "$u", "${v}", "$\u00e9", "${\u65e5}", "$", "eq", "(", ")", ",", " ", "-", "x", "\u00e9", "{{", "}}", "'s'"],
                 [""], '<var v="2"/><if test="%s"><rect wh="1"/></if>'),
@@ -534,7 +539,7 @@ def scanner_strings(tier):
             for combo in itertools.product(alpha, repeat=n):
                 s = "".join(combo)
                 for pre in prefixes:
-                    yield name, doc(tmpl % xml_attr_escape(pre + s))
+                    yield name, doc(tmpl.replace("%s", xml_attr_escape(pre + s)))
 
 
 # ------------------------------------------------------------------------------------------
@@ -570,7 +575,7 @@ def func_cases(ctx, tier):
 # ------------------------------------------------------------------------------------------
 # stream 4: structure-aware mutation
 
-DICT = ["$\u00e9".encode(), "${\u65e5\u672c}".encode(), "#\u00e9".encode(), "{{$\u00df + 1}}".encode(), "\u00e9".encode(), "\U0001F600".encode(),
+DICT = [b' class="d-red $x"', b'<var x="d-red d-thick"/>', b' class="$x $x"', "$\u00e9".encode(), "${\u65e5\u672c}".encode(), "#\u00e9".encode(), "{{$\u00df + 1}}".encode(), "\u00e9".encode(), "\U0001F600".encode(),
         b"#a", b"^", b"|h", b"|V 3", b"@tl", b"@t:50%", b"~w", b"{{", b"}}", b"$x", b"${x}", b"{{$x+1}}", b"&amp;", b"&#10;",
         b"&lt;", b"<!--", b"-->", b"<![CDATA[", b"]]>", b"<?pi x?>", b"<g>", b"</g>", b"<svg>", b"</svg>", b"<rect wh=\"1\"/>",
         b"<reuse href=\"#a\"/>", b"<use href=\"#a\"/>", b"<loop count=\"3\">", b"</loop>", b"<if test=\"1\">", b"</if>",
